@@ -156,7 +156,11 @@ def oracle(c, r):
             return Failure(dict(sig, clause="entries"), f"tier {t['name']!r}: {len(t['es'])} entries, expected {len(w['es'])}: {t['es']} vs {w['es']}")
         for a, b in zip(w["es"], t["es"]):
             if a[-1] != b[-1]:
-                return Failure(dict(sig, clause="label"), f"tier {t['name']!r}: label {b[-1]!r} expected {a[-1]!r}")
+                # a lone carriage return inside a label comes back as a line feed from the text formats (the files are read with
+                # universal newlines): known finding A35, narrow signature lone_cr
+                lone_cr = "\r" in a[-1].replace("\r\n", "") and b[-1] == a[-1].replace("\r\n", "\n").replace("\r", "\n")
+                return Failure(dict(sig, clause="label", **({"lone_cr": True} if lone_cr else {})),
+                               f"tier {t['name']!r}: label {b[-1]!r} expected {a[-1]!r}")
             if not all(ioops.time_ok(x, y) for x, y in zip(a[:-1], b[:-1])):
                 return Failure(dict(sig, clause="time"), f"tier {t['name']!r}: times {b[:-1]!r} expected {a[:-1]!r}")
     # (with includeEmptyIntervals=False the empty-labelled entries are gone, so only textgrids without them re-save identically)
